@@ -25,7 +25,11 @@ RULE = ('lib cases: a list of 1..4 inputs, each (points: None / empty Nx3 / empt
         'dataset directories (sensors, records_camera, keypoints / descriptors / global features / matches each kept in a '
         'directory - plain files, or relative / absolute symbolic links to a store elsewhere, or the type directory itself a link; '
         'the output lies at another depth than the inputs - or in a '
-        'tar archive, per input and per type, points3d.txt, observations.txt), merged by merge_kaptures with '
+        'tar archive, per input and per type; 65% of the archives have a history: members written again under the same name '
+        '(same size / other number of rows / unchanged), interleaved, in 1..3 sessions - first session by the tar format writer '
+        '(optionally with directory entries and ./ names as `tar -cf x.tar .` makes) or by kapture TarHandler(mode=a), later sessions '
+        'always by TarHandler.add_array_to_tar after re-opening; the raw member list of every archive is read back with the '
+        'tarfile module and given to Coq, together with what kapture TarHandler(mode=r) lists and reads for it - points3d.txt, observations.txt), merged by merge_kaptures with '
         'either driver and a random skip list; the output directory is read back. remerge cases: the four merge_*_collections '
         'functions (library API) merge 1..3 inputs (directory and tar sources) into a destination that is NOT empty: an earlier merge of an '
         'earlier state of the same inputs (files recomputed with the same size / another size / unchanged / absent) and/or stale files '
@@ -34,7 +38,9 @@ RULE = ('lib cases: a list of 1..4 inputs, each (points: None / empty Nx3 / empt
         'must be replaced; distinct = distinct case content.')
 TRUSTED = ['numpy: np.vstack copies float64 rows bit for bit and refuses different column counts; np.frombuffer/reshape/tofile '
            'round-trip the bytes of a tar member that holds whole rows and raise ValueError otherwise (model: transfer)',
-           'shutil.copy copies bytes; tarfile returns the bytes of the last member of a given name',
+           'shutil.copy copies bytes; the tarfile module lists the members of an archive in archive order and extractfile(member) returns '
+           'the bytes of that member (the raw member list given to Coq is read with it, not with kapture); os.path.normpath '
+           'is the name normalisation of path_secure',
            'tool cases read datasets with kapture.io.csv.kapture_from_dir (what the tool itself loads is taken as the input of the merge) '
            'and read the output with points3d_from_file / observations_from_file']
 ASSUMPTIONS = ['observations of an input that has no points3d designate no coordinates: the code drops them and the oracle expects exactly that',
@@ -160,6 +166,8 @@ def _gen_features(rng, images, malformed=False):
                 k = rng.choice(sorted(files))
                 files[k] = _rand_bytes(rng, unit * rng.randint(0, 2) + rng.randint(1, unit - 1)) if unit > 1 else files[k]
             feats[kind][ft] = {'tar': tar, 'dtype': dt, 'dsize': ds, 'files': files}
+            if tar and files and rng.random() < 0.65:
+                _gen_history(rng, feats[kind][ft], malformed)
             if not tar and rng.random() < 0.4:
                 # directory storage where files are symbolic links to a store elsewhere (relative or absolute),
                 # or where the directory of the feature type itself is a link
@@ -167,6 +175,45 @@ def _gen_features(rng, images, malformed=False):
                 if rng.random() < 0.3:
                     feats[kind][ft]['dirlink'] = rng.choice(['rel', 'abs'])
     return feats
+
+
+def _gen_history(rng, d, malformed=False):
+    """A tar-stored feature type with a past.  kapture archives are append-only: features that are computed again are
+    written again under the same name and the last entry of a name is the current one.  'log' is the sequence of
+    writes (superseded versions: same size / another number of rows / unchanged content, interleaved with the other
+    names; the last write of a name is its current content d['files'][name]); the archive is produced in 1..3 sessions:
+    the first with the tar format writer in one pass (optionally with the directory entries and the './' prefix that
+    `tar -cf x.tar .` produces) or with kapture's TarHandler in append mode, the following ones always with
+    TarHandler(mode='a').add_array_to_tar after re-opening the archive."""
+    files = d['files']
+    unit = ITEMSIZE[d['dtype']] * d['dsize']
+    occ = []
+    for name in sorted(files):
+        occ += [name] * (1 + rng.choice([0, 0, 1, 1, 2, 3]))
+    rng.shuffle(occ)
+    left = {n: occ.count(n) for n in files}
+    log = []
+    for name in occ:
+        left[name] -= 1
+        if left[name] == 0:
+            log.append([name, files[name]])
+            continue
+        r = rng.random()
+        if r < 0.35:
+            hx = _rand_bytes(rng, len(files[name]) // 2)                # same size, other bytes
+        elif r < 0.9:
+            hx = _rand_bytes(rng, unit * rng.randint(0, 4))             # another number of rows
+        elif malformed and unit > 1:
+            hx = _rand_bytes(rng, unit * rng.randint(0, 2) + rng.randint(1, unit - 1))
+        else:
+            hx = files[name]                                            # written again unchanged
+        log.append([name, hx])
+    d['log'] = log
+    d['first'] = rng.choice(['w', 'w', 'a'])
+    d['cuts'] = sorted({rng.randrange(1, len(log)) for _ in range(rng.choice([0, 1, 1, 2]))}) if len(log) > 1 else []
+    if d['first'] == 'w':
+        d['dirs'] = rng.random() < 0.5
+        d['dot'] = rng.random() < 0.3
 
 
 def _gen_remerge(rng, malformed=False):
@@ -421,13 +468,7 @@ def _build_dataset(root, x):
             tdir = os.path.join(root, dirs[kind], t)
             os.makedirs(tdir, exist_ok=True)
             if d['tar']:
-                tp = get_feature_tar_fullpath(cls[kind], t, root)
-                with tarfile.open(tp, 'w') as tf:
-                    for name, hx in d['files'].items():
-                        data = bytes.fromhex(hx)
-                        info = tarfile.TarInfo(_relname(kind, name, ext, sep))
-                        info.size = len(data)
-                        tf.addfile(info, io.BytesIO(data))
+                _write_tar(get_feature_tar_fullpath(cls[kind], t, root), kind, d, ext, sep)
             else:
                 for name, hx in d['files'].items():
                     fp = os.path.join(tdir, _relname(kind, name, ext, sep))
@@ -439,6 +480,110 @@ def _build_dataset(root, x):
                     os.makedirs(os.path.dirname(fp), exist_ok=True)
                     with open(fp, 'wb') as fh:
                         fh.write(bytes.fromhex(hx))
+
+
+def _tar_sequence(d):
+    """the writes that produce the archive, in order: the case's log restricted to the names the case still has,
+    completed so that the last write of every name is its current content (robust to shrinking)"""
+    files = d['files']
+    seq = [(n, hx) for n, hx in (d.get('log') or []) if n in files]
+    last = dict(seq)
+    for n, hx in files.items():
+        if last.get(n) != hx:
+            seq.append((n, hx))
+    return seq
+
+
+def _write_tar(tp, kind, d, ext, sep):
+    import numpy as np
+    from kapture.io.tar import TarHandler
+    seq = _tar_sequence(d)
+    cuts = sorted({c for c in (d.get('cuts') or []) if 0 < c < len(seq)})
+    bounds = [0] + cuts + [len(seq)]
+    unit = ITEMSIZE[d['dtype']] * d['dsize']
+    for si, (a, b) in enumerate(zip(bounds, bounds[1:])):
+        if si == 0 and d.get('first', 'w') == 'w':
+            pre = './' if d.get('dot') else ''
+            made = set()
+
+            def add_dir(tf, dn):
+                if dn not in made:
+                    made.add(dn)
+                    info = tarfile.TarInfo(dn)
+                    info.type = tarfile.DIRTYPE
+                    info.mode = 0o755
+                    tf.addfile(info)
+            with tarfile.open(tp, 'w') as tf:
+                if d.get('dirs') and d.get('dot'):
+                    add_dir(tf, '.')
+                for name, hx in seq[a:b]:
+                    member = _relname(kind, name, ext, sep)
+                    if d.get('dirs'):          # as the tar command does: an entry for every directory, before its files
+                        parts = member.split('/')[:-1]
+                        for j in range(1, len(parts) + 1):
+                            add_dir(tf, pre + '/'.join(parts[:j]))
+                    data = bytes.fromhex(hx)
+                    info = tarfile.TarInfo(pre + member)
+                    info.size = len(data)
+                    tf.addfile(info, io.BytesIO(data))
+        else:                                  # kapture's own writer, archive (re-)opened in append mode
+            with TarHandler(tp, 'a') as th:
+                for name, hx in seq[a:b]:
+                    data = bytes.fromhex(hx)
+                    if len(data) % unit == 0:
+                        arr = np.frombuffer(data, dtype=getattr(np, d['dtype'])).reshape(-1, d['dsize'])
+                    else:
+                        arr = np.frombuffer(data, dtype=np.uint8)
+                    th.add_array_to_tar(_relname(kind, name, ext, sep), arr)
+
+
+def _read_archive(tp):
+    """the members of an archive in archive order, read with the tar format reader only (not with kapture):
+    [normalised name, bytes (hex) of a regular file / None for any other entry]"""
+    out = []
+    with tarfile.open(tp, 'r') as tf:
+        for m in tf.getmembers():
+            out.append([os.path.normpath(m.name).replace('\\', '/'), tf.extractfile(m).read().hex() if m.isfile() else None])
+    return out
+
+
+def _kapture_listing(tp):
+    """what kapture's own reader makes of the archive: the names it lists and the bytes it returns for each
+    (public API only); entries it cannot read as data (directory entries) are left out"""
+    import numpy as np
+    from kapture.io.tar import TarHandler, list_files_in_tar
+    out = []
+    with TarHandler(tp, 'r') as th:
+        for name in list(list_files_in_tar(th)):
+            try:
+                out.append([name, th.get_array_from_tar(name, np.uint8, 1).tobytes().hex()])
+            except (AttributeError, KeyError):
+                pass
+    return out
+
+
+def _sources(root, x, names):
+    """the feature / match files of one input: path, storage, bytes per row, current bytes as the case defines them
+    (the bytes written last under that name), and for tar storage the raw archive it is a member of.
+    names: kind -> type -> keys"""
+    from kapture.io.tar import get_feature_tar_fullpath
+    cls, dirs, ext, sep = _tables()
+    archs, files = [], []
+    for kind in KINDS:
+        for t in sorted(names.get(kind) or {}):
+            d = x['features'][kind][t]
+            unit = 24 if kind == 'matches' else ITEMSIZE[d['dtype']] * d['dsize']
+            if d['tar']:
+                tp = get_feature_tar_fullpath(cls[kind], t, root)
+                archs.append({'prefix': dirs[kind] + '/' + t + '/', 'members': _read_archive(tp), 'listed': _kapture_listing(tp)})
+            for key in sorted(names[kind][t]):
+                member = _relname(kind, key, ext, sep)
+                e = {'path': dirs[kind] + '/' + t + '/' + member, 'tar': bool(d['tar']), 'unit': unit, 'data': d['files'][key]}
+                if d['tar']:
+                    e['arch'] = len(archs) - 1
+                    e['member'] = member
+                files.append(e)
+    return archs, files
 
 
 def _skip_types(skip):
@@ -462,20 +607,11 @@ def _load_input(root, x, skip):
         th.close()
     pts = None if k.points3d is None else {'w': int(k.points3d.shape[1]), 'rows': _array_bits(k.points3d)}
     obs = None if k.observations is None else _nested_obs(k.observations)
-    files = []
     parts = {'keypoints': k.keypoints, 'descriptors': k.descriptors, 'global_features': k.global_features, 'matches': k.matches}
-    for kind in KINDS:
-        coll = parts[kind]
-        if coll is None:
-            continue
-        for t in sorted(coll):
-            d = x['features'][kind][t]
-            unit = 24 if kind == 'matches' else ITEMSIZE[d['dtype']] * d['dsize']
-            for name in sorted(coll[t]):
-                key = name if isinstance(name, str) else name[0] + '|' + name[1]
-                rel = dirs[kind] + '/' + t + '/' + _relname(kind, key, ext, sep)
-                files.append({'path': rel, 'tar': bool(d['tar']), 'unit': unit, 'data': d['files'][key]})
-    return {'pts': pts, 'obs': obs, 'files': files}
+    names = {kind: {t: [name if isinstance(name, str) else name[0] + '|' + name[1] for name in coll[t]] for t in coll}
+             for kind, coll in parts.items() if coll is not None}
+    archs, files = _sources(root, x, names)
+    return {'pts': pts, 'obs': obs, 'files': files, 'archs': archs}
 
 
 def _read_output(out):
@@ -537,18 +673,9 @@ def _run_tool(case, ctx):
     return res
 
 
-def _case_files(x):
-    """the feature / match files of one input, as the case defines them: path, storage, bytes per row, bytes"""
-    cls, dirs, ext, sep = _tables()
-    files = []
-    for kind in KINDS:
-        for t in sorted(x['features'][kind]):
-            d = x['features'][kind][t]
-            unit = 24 if kind == 'matches' else ITEMSIZE[d['dtype']] * d['dsize']
-            for name in sorted(d['files']):
-                files.append({'path': dirs[kind] + '/' + t + '/' + _relname(kind, name, ext, sep), 'tar': bool(d['tar']),
-                              'unit': unit, 'data': d['files'][name]})
-    return files
+def _case_sources(root, x):
+    """the feature / match files of one input, as the case defines them (library API: the names are given by the caller)"""
+    return _sources(root, x, {kind: {t: list(d['files']) for t, d in x['features'][kind].items()} for kind in KINDS})
 
 
 def _api_merge(inputs, roots, out):
@@ -610,13 +737,16 @@ def _run_remerge(case, ctx):
         _build_dataset(r, x)
         roots.append(r)
     res['dest'] = _read_output(out)['files']
-    res['files'] = [_case_files(x) for x in case['inputs']]
+    srcs = [_case_sources(r, x) for r, x in zip(roots, case['inputs'])]
+    res['archs'] = [a for a, _ in srcs]
+    res['files'] = [f for _, f in srcs]
     try:
         _api_merge(case['inputs'], roots, out)
         res['out'] = _read_output(out)['files']
     except Exception as e:
         res['exc'] = f'{type(e).__name__}: {e}'[:200]
         res['exc_type'] = type(e).__name__
+    res['inputs_changed'] = ([_case_sources(r, x) for r, x in zip(roots, case['inputs'])] != srcs)
     shutil.rmtree(base, ignore_errors=True)
     return res
 
@@ -700,6 +830,17 @@ def _check_obs(tag, inputs, got_obs, got_rows):
     return None
 
 
+def _superseded(per_input_files, per_input_archs):
+    """path -> bytes of the members of that name that a later member of the same archive has replaced"""
+    old = {}
+    for es, archs in zip(per_input_files, per_input_archs):
+        for e in es:
+            if e['tar']:
+                vs = [hx for n, hx in archs[e['arch']]['members'] if n == e['member']]
+                old.setdefault(e['path'], []).extend(v for v in vs[:-1] if v is not None)
+    return old
+
+
 def oracle(case, obs):
     if obs.get('inputs_changed'):
         return 'the merge modified its inputs'
@@ -732,6 +873,8 @@ def oracle(case, obs):
             if got[p] is None:
                 return 're-merge: a merged feature or match file cannot be read (dangling link)'
             if got[p] not in src[p]:
+                if got[p] in _superseded(obs['files'], obs['archs']).get(p, []):
+                    return 're-merge: a merged file holds a superseded version of a tar member (an earlier entry of that name)'
                 return 're-merge: a merged feature or match file is not byte-identical to its source'
         return None
     # tool
@@ -779,6 +922,8 @@ def oracle(case, obs):
         if p not in src:
             return 'tool: the merged dataset has a feature or match file that no input has'
         if b not in src[p]:
+            if b in _superseded([x['files'] for x in inputs], [x['archs'] for x in inputs]).get(p, []):
+                return 'tool: a merged file holds a superseded version of a tar member (an earlier entry of that name)'
             return 'tool: a merged feature or match file is not byte-identical to its source'
     return None
 
@@ -808,6 +953,24 @@ def _c_inputs(inputs):
     return kv.clist(kv.cpair(_c_cloud(x['pts']), _c_nested(x['obs'])) for x in inputs)
 
 
+def _c_archs(per_input):
+    return kv.clist(kv.clist(kv.clist(kv.cpair(kv.cstr(n), kv.copt(None if hx is None else kv.cstr(bytes.fromhex(hx))))
+                                      for n, hx in a['members']) for a in archs) for archs in per_input)
+
+
+def _c_listing(per_input):
+    return kv.clist(kv.clist(kv.clist(kv.cpair(kv.cstr(n), kv.cstr(bytes.fromhex(hx))) for n, hx in a['listed'])
+                             for a in archs) for archs in per_input)
+
+
+def _c_sources(per_input):
+    def one(e):
+        if e['tar']:
+            return '(InTar %s %s %s %s)' % (kv.cstr(e['path']), kv.cz(e['unit']), kv.cnat(e['arch']), kv.cstr(e['member']))
+        return '(InDir %s %s %s)' % (kv.cstr(e['path']), kv.cz(e['unit']), kv.cstr(bytes.fromhex(e['data'])))
+    return kv.clist(kv.clist(one(e) for e in es) for es in per_input)
+
+
 def encode(case, obs):
     if case['mode'] == 'lib':
         po, p = obs['po'], obs['p']
@@ -816,15 +979,11 @@ def encode(case, obs):
         c_p = 'None' if 'exc' in p else '(Some %s)' % kv.cpair(kv.cz(p['w']), kv.clist(_c_row(r) for r in p['rows']))
         return '(CaseLib %s %s %s)' % (_c_inputs(obs['inputs']), c_po, c_p)
     if case['mode'] == 'remerge':
-        files = kv.clist(kv.clist('(mkF %s %s %s %s)' % (kv.cstr(e['path']), kv.cbool(e['tar']), kv.cz(e['unit']),
-                                                          kv.cstr(bytes.fromhex(e['data']))) for e in es) for es in obs['files'])
         dest = kv.clist(kv.cpair(kv.cstr(p), kv.cstr(bytes.fromhex(b))) for p, b in obs['dest'] if b is not None)
         c_o = 'None' if 'exc' in obs else '(Some %s)' % kv.clist(kv.cpair(kv.cstr(p), kv.cstr(bytes.fromhex(b)))
                                                                  for p, b in obs['out'] if b is not None)
-        return '(CaseRemerge %s %s %s)' % (dest, files, c_o)
+        return '(CaseRemerge %s %s %s %s %s)' % (dest, _c_archs(obs['archs']), _c_listing(obs['archs']), _c_sources(obs['files']), c_o)
     inputs = obs['loaded']
-    files = kv.clist(kv.clist('(mkF %s %s %s %s)' % (kv.cstr(e['path']), kv.cbool(e['tar']), kv.cz(e['unit']),
-                                                      kv.cstr(bytes.fromhex(e['data']))) for e in x['files']) for x in inputs)
     if 'exc' in obs:
         c_o = 'None'
     else:
@@ -833,8 +992,10 @@ def encode(case, obs):
         c_obs = 'None' if o['obs'] is None else '(Some %s)' % _c_tuples(o['obs'])
         c_files = kv.clist(kv.cpair(kv.cstr(p), kv.cstr(bytes.fromhex(b))) for p, b in o['files'] if b is not None)
         c_o = '(Some %s)' % kv.cpair(c_pts, c_obs, c_files)
-    return '(CaseTool %s %s %s %s %s)' % (kv.cbool('points3d' in case['skip']), kv.cbool('observations' in case['skip']),
-                                          _c_inputs(inputs), files, c_o)
+    return '(CaseTool %s %s %s %s %s %s %s)' % (kv.cbool('points3d' in case['skip']), kv.cbool('observations' in case['skip']),
+                                                _c_inputs(inputs), _c_archs([x['archs'] for x in inputs]),
+                                                _c_listing([x['archs'] for x in inputs]),
+                                                _c_sources([x['files'] for x in inputs]), c_o)
 
 
 # ------------------------------------------------------------------------------------------ evidence
@@ -845,6 +1006,17 @@ def _overwrites(obs):
         for e in es:
             src.setdefault(e['path'], []).append(e['data'])
     return [(p, b or '') for p, b in obs['dest'] if p in src and b not in src[p]]
+
+
+def _rewrites(per_input_files, per_input_archs):
+    """number of merged tar members that have superseded earlier entries with other bytes"""
+    n = 0
+    for es, archs in zip(per_input_files, per_input_archs):
+        for e in es:
+            if e['tar']:
+                vs = [hx for nm, hx in archs[e['arch']]['members'] if nm == e['member']]
+                n += any(v != vs[-1] for v in vs[:-1])
+    return n
 
 
 def nontrivial(case, obs):
@@ -864,6 +1036,7 @@ def classify(case, obs):
         same = sum(1 for p, b in ow if len(b) == len(src[p]['data']))
         route = {(src[p]['tar']) for p, _ in ow}
         hist = ('prior+stale' if case['prior'] and case['stale'] else 'prior' if case['prior'] else 'stale')
+        hist += '/tar-rewrites' if _rewrites(obs['files'], obs['archs']) else ''
         return (f'remerge/n={len(case["inputs"])}/{hist}/same-size-stale={min(same, 3)}/other-stale={min(len(ow) - same, 3)}/'
                 f'{"tar+dir" if len(route) == 2 else "tar" if route == {True} else "dir" if route == {False} else "none"}/'
                 f'{"raise" if "exc" in obs else "ok"}')
@@ -878,13 +1051,15 @@ def classify(case, obs):
     tar = sum(1 for x in inputs for e in x['files'] if e['tar'])
     dirf = sum(1 for x in inputs for e in x['files'] if not e['tar'])
     return (f'tool/{"keep" if case["keep_ids"] else "remap"}/n={len(inputs)}/{shape}/'
-            f'{"tar+dir" if tar and dirf else "tar" if tar else "dir" if dirf else "nofiles"}/skip={len(case["skip"])}/{out}')
+            f'{"tar+dir" if tar and dirf else "tar" if tar else "dir" if dirf else "nofiles"}'
+            f'{"/tar-rewrites" if _rewrites([x["files"] for x in inputs], [x["archs"] for x in inputs]) else ""}/skip={len(case["skip"])}/{out}')
 
 
 def describe(case, obs):
     if case['mode'] == 'remerge':
         return {'mode': 'remerge', 'inputs': [{k: {t: ('tar' if d['tar'] else 'dir', len(d['files'])) for t, d in v.items()}
                                                for k, v in x['features'].items() if v} for x in case['inputs']],
+                'tar_members': [[len(a['members']) for a in archs] for archs in obs['archs']],
                 'prior_merge': bool(case['prior']), 'stale_files': len(case['stale']),
                 'destination_before': len(obs['dest']), 'must_be_replaced': len(_overwrites(obs)),
                 'observed': obs.get('exc') or f'{len(obs["out"])} files'}
@@ -898,12 +1073,32 @@ def describe(case, obs):
                         'obs': None if x['obs'] is None else len(x['obs']),
                         'files': {k: {t: ('tar' if d['tar'] else 'dir', len(d['files'])) for t, d in v.items()}
                                   for k, v in x['features'].items() if v}} for x in case['inputs']],
+            'tar_members': [[len(a['members']) for a in x['archs']] for x in obs['loaded']],
             'observed': obs.get('exc') or {'pts': None if obs['out']['pts'] is None else len(obs['out']['pts']['rows']),
                                            'obs': None if obs['out']['obs'] is None else len(obs['out']['obs']),
                                            'files': len(obs['out']['files'])}}
 
 
+def _shrink_history(case):
+    for i, x in enumerate(case['inputs']):
+        for kind in KINDS:
+            for t, d in (x.get('features') or {}).get(kind, {}).items():
+                if d.get('log'):
+                    c = copy.deepcopy(case)
+                    for k in ('log', 'cuts', 'first', 'dirs', 'dot'):
+                        c['inputs'][i]['features'][kind][t].pop(k, None)
+                    yield c
+                    for j, (n, hx) in enumerate(d['log']):
+                        if hx != d['files'].get(n) or any(n2 == n for n2, _ in d['log'][j + 1:]):
+                            c = copy.deepcopy(case)
+                            del c['inputs'][i]['features'][kind][t]['log'][j]
+                            c['inputs'][i]['features'][kind][t]['cuts'] = []
+                            yield c
+
+
 def shrink(case):
+    if case['mode'] != 'lib':
+        yield from _shrink_history(case)
     if case['mode'] == 'remerge':
         if case['prior'] and case['stale']:
             for k in ('prior', 'stale'):
@@ -983,7 +1178,9 @@ LEVEL_TEXT = ('Theorems in coq/Props/C11.v hold for every list of inputs (any le
               'the inputs\' observations shifted by the offset of their own input (nothing lost, added, duplicated, or moved to another '
               'input\'s points), per point and type with order kept; the merge succeeds iff the non-empty clouds agree on 3 or 6 columns and '
               'keeps that column count; inputs without points are neutral; merged feature/match files are byte-identical to the first '
-              'source of that name for directory and tar sources. The model is tied to the code by running both library functions on '
+              'source of that name for directory and tar sources, and for a tar source they are the bytes of the LAST member of that name in '
+              'the archive (append-only archives with re-written members; directory entries ignored), for every archive and every history '
+              'of appends. The model is tied to the code by running both library functions on '
               'generated lists and the merge tool on real directories/tar archives and comparing results inside Coq.')
 LEVEL_NOTE = ('Trusted: Coq kernel + vm_compute, harness encoders, numpy vstack/frombuffer/tofile, shutil.copy, tarfile, the dataset '
               'reader used to observe tool inputs/outputs. Mixed Nx3/Nx6 inputs and truncated tar members are modelled (ValueError) but '
